@@ -32,8 +32,8 @@ RULE = ("case = (1..2 servers, list order, 2..3 clients each with L1 none/unlimi
 
 HERE = os.path.dirname(os.path.dirname(os.path.abspath(__file__)))
 KNOWN = {  # signature of a finding -> (class name for C10_EXCLUDE_KNOWN, regression case, searched unless listed as open)
-    "server:store-with-empty-trigger-name-refused": ("emptytrig", "c10_netcache.known-empty-trigger-name.case", True),       # fixed: 21f823e
-    "l1:refresh-merges-stale-triggers": ("trigmerge", "c10_netcache.known-l1-refresh-merges-triggers.case", True),           # fixed: 43668a5
+    "server:store-with-empty-trigger-name-refused": ("emptytrig", "c10_netcache.known-empty-trigger-name.case", True),       # fixed: ee86997
+    "l1:refresh-merges-stale-triggers": ("trigmerge", "c10_netcache.known-l1-refresh-merges-triggers.case", True),           # fixed: da2af65
     # reported, outside the statement's quantifier (needs a hostile peer): excluded by construction until known_findings.json lists it as fixed
     "server:store-frame-length-wraparound": ("framewrap", "c10_netcache.known-store-frame-length-wraparound.case", False),
 }
@@ -124,7 +124,7 @@ CL = "src/tcp_cache_client.cpp"
 MUTATIONS = [
     # S(i) of DESIGN.md ("cache_over_ip::store: do not remove from L1") is NOT in this list: it does not break the property.  Every L1 hit is
     # revalidated against the server's generation stamp, a store always gets a fresh stamp from the same server, so the stale own copy is
-    # replaced on the next fetch exactly like a copy another node made stale.  (Before the fix 43668a5 the mutant was visible through the
+    # replaced on the next fetch exactly like a copy another node made stale.  (Before the fix da2af65 the mutant was visible through the
     # merged trigger set; it would matter again only if a restarted server re-issued old stamps, which the statement does not quantify over.)
     # S(ii) server answers `uptodate` to every revalidation without comparing generations
     dict(name="server-uptodate-without-generation-compare", edits=[(SV, "\t\t\t&& generation==hin_.operations.fetch.current_gen)", "\t\t\t)")]),
@@ -150,9 +150,9 @@ MUTATIONS = [
     dict(name="store-deadline-truncated-to-32-bits", edits=[(CL, "\th.operations.store.timeout=timeout;", "\th.operations.store.timeout=(int)timeout;")]),
     # own: clear is applied to the L1 and the first server only
     dict(name="clear-not-broadcast", edits=[(CL, "\tstd::string empty;\n\tbroadcast(h,empty);", "\tstd::string empty;\n\ttcp[0].transmit(h,empty);")]),
-    # reverts the fix of server:store-with-empty-trigger-name-refused (21f823e)
+    # reverts the fix of server:store-with-empty-trigger-name-refused (ee86997)
     dict(name="revert-fix-empty-trigger-name-refused", edits=[(SV, "\t\t\tunsigned size=strlen(start);\n\t\t\tstd::string tmp;", "\t\t\tunsigned size=strlen(start);\n\t\t\tif(size==0) {\n\t\t\t\treturn false;\n\t\t\t}\n\t\t\tstd::string tmp;")]),
-    # reverts the fix of l1:refresh-merges-stale-triggers (43668a5)
+    # reverts the fix of l1:refresh-merges-stale-triggers (da2af65)
     dict(name="revert-fix-l1-refresh-merges-triggers", edits=[(CO, "\t\t\tif(l1_->fetch(key,a,&l1_triggers,timeout_out,gen)) {", "\t\t\tif(l1_->fetch(key,a,tags,timeout_out,gen)) {")]),
     # own (frames group): the store frame validation accepts length fields that add up to less than the frame
     dict(name="server-store-accepts-short-length-sum", edits=[(SV, "+hin_.operations.store.triggers_len != hin_.size", "+hin_.operations.store.triggers_len > hin_.size")]),
